@@ -60,6 +60,13 @@ CONTRACTS = {
                     # round trip: the identifier of the returned index is the variable of the literal (either polarity)
                     'mhas(self.seq2vid, result)', 'mget(self.seq2vid, result) == abs(lit)'],
     },
+    (V, 'WordVars.indices'): {
+        'property': ['C11'],
+        'source': (V, 'WordOfIndicesVariables.indices'),
+        # without a pattern: the index tuples in identifier order (what the counting principle walks through)
+        'params': {'pattern': 'noargs'}, 'returns': 'cseq', 'raises': {},
+        'ensures': ['result == self.vid2seq', 'result == ' + GEN.format(n='self.n', k='self.k')],
+    },
     (V, 'ManagerW.new_combinations'): {
         'property': ['C10', 'C11'],
         'source': (V, 'VariablesManager.new_combinations'),
